@@ -255,4 +255,6 @@ def build(tier):
     for o in C07.build(tier):
         o.name = o.name + ' (obligation accounting)'
         O.append(o)
+    from . import market_publish
+    O += market_publish.build_for('C06', tier)
     return O
